@@ -55,6 +55,7 @@ class Oracle:
         self.pops = 0
         self.override = None           # (timeout, filter tags or None) while inside passthrough()
         self.epoch = {}                # c -> {"d": effective delay, "armed": clock at first iteration, "due": iterations begun past the deadline}
+        self.baseline = {}             # c -> states of its managed futures when its current registration was accepted
 
     def ident(self, c):
         return (self.cfg[c]["p"], self.cfg[c]["n"])
@@ -80,6 +81,7 @@ class Oracle:
                                               any(t in CLASS_TAGS[self.cfg[c]["cls"]] for t in self.override[1])):
                 d = self.override[0]
             self.epoch[c] = {"d": max(0, d), "armed": None, "due": 0}
+            self.baseline[c] = list(fut_states)
         elif result == "none":
             if not self.shutdown and idn not in self.outstanding:
                 self.flag("add/refused-without-reason", "add() returned None for cache %d with a free identity" % c)
@@ -89,6 +91,25 @@ class Oracle:
             pass
         else:
             self.flag("add/raised-%s" % result, "add(cache %d) raised %s" % (c, result))
+
+    def check_outstanding_futures(self, fut_states_of):
+        """a managed future of an outstanding request stays as it was when the request was accepted (pending, normally)
+        until the request is resolved; only the response handler of the harness itself may complete it ('ext')"""
+        for c in self.outstanding.values():
+            base = self.baseline.get(c)
+            if not base:
+                continue
+            cur = fut_states_of(c)
+            for k, (b, a) in enumerate(zip(base, cur)):
+                if a != b and not (b == "pending" and a == "ext"):
+                    self.flag("futures/completed-while-outstanding",
+                              "future %d of cache %d went from %r to %r while the cache is still registered" % (k, c, b, a))
+                    base[k] = a
+
+    def on_refused_add(self, c, before, after):
+        if before != after:
+            what = [n for n, x, y in zip(("table", "live timers", "futures"), before, after) if x != y]
+            self.flag("add/refused-add-changed-state", "add(cache %d) returned None for a taken identity but changed %s" % (c, ", ".join(what)))
 
     def on_pop(self, idn, got):
         """got: cache index or 'KeyError'"""
@@ -136,6 +157,8 @@ class Oracle:
                     self.flag("futures/not-completed-on-timeout", "future %d of cache %d is %r after its timeout, configured %r" % (k, c, a, want))
             elif a != b:
                 self.flag("futures/overwritten-on-timeout", "future %d of cache %d changed from %r to %r" % (k, c, b, a))
+        if self.is_out(c):      # the callback registered the cache again: its futures were completed for the registration that timed out
+            self.baseline[c] = list(after)
 
     def on_drop(self, kind, cs):
         for c in cs:
@@ -309,6 +332,7 @@ class Harness:
         rc, k = self.rc, b[0]
         if k == "add":
             c = b[1]
+            before = (self.table(), self.live(), [self.fut_states(x) for x in range(len(self.cfg))])
             try:
                 r = rc.add(self.caches[c])
                 res = "added" if r is self.caches[c] else "none" if r is None else "other"
@@ -320,6 +344,8 @@ class Harness:
                 res2 = res
             self.obs.append(["add", c, res2])
             self.oracle.on_add(c, res, self.fut_states(c))
+            if res2 == "dup":
+                self.oracle.on_refused_add(c, before, (self.table(), self.live(), [self.fut_states(x) for x in range(len(self.cfg))]))
         elif k in ("pop", "retr"):
             p, n = b[1], b[2]
             if k == "pop":
@@ -403,6 +429,7 @@ class Harness:
             self.obs.append(["nop"])
         else:
             raise ValueError(b)
+        self.oracle.check_outstanding_futures(self.fut_states)
 
     # ------------------------------------------------------------------ asynchronous part
     def _pre_shutdown(self):
@@ -437,6 +464,7 @@ class Harness:
             self.flat.append(["iter_end"])
             self.obs.append(["iter_end", []])
             self.oracle.on_iter_end()
+            self.oracle.check_outstanding_futures(self.fut_states)
         elif k == "shutdown":
             asyncio.Task(self._shutdown(), loop=self.loop, eager_start=True)
         elif k == "shutdown_soon":
@@ -653,6 +681,18 @@ def prefixes(cfg):
     ]
 
 
+def directed():
+    """a few fixed scenarios that every run executes (oracle + model comparison), beside the enumerations"""
+    one = [C(0, 1, 3, 0, F3)]
+    two = [C(0, 1, 3, 0, F3), C(0, 1, 2, 1, (("val", 4),))]
+    return [
+        (one, [["add", 0], ["add", 0], ["iter"], ["pop", 0, 1]]),                       # same outstanding object added twice
+        (one, [["add", 0], ["iter"], ["add", 0], ["snap"], ["adv", 3], ["iter"], ["iter"], ["snap"]]),
+        (two, [["add", 0], ["add", 1], ["add", 0], ["snap"], ["retr", 0, 1], ["add", 1], ["add", 1], ["snap"]]),
+        (two, [["add", 1], ["iter"], ["adv", 2], ["iter"], ["add", 1], ["add", 0], ["iter"], ["snap"]]),
+    ]
+
+
 def _enum_worker(args):
     cfg, prefix, heads, syms, depth, keep_mod = args
     import zlib
@@ -813,6 +853,12 @@ def run(ctx):
     r = ctx.rng("main")
     cases, meta = [], []       # Coq correspondence cases
     stats = {"timeouts": 0, "pops": 0}
+    for cfg, ops in directed():
+        flat, obs, bad, st = run_impl(cfg, ops)
+        ctx.count(("directed", json.dumps(ops)))
+        _report(ctx, cfg, ops, bad, seen_keys, "directed")
+        cases.append(case_coq(cfg, flat, obs))
+        meta.append((cfg, ops))
     # ---- stage C1: exhaustive event orders on small populations
     passes = [(True, 3), (False, 4)] if ctx.quick else [(True, 4), (False, 5)]   # (rich alphabet, tail length)
     depth = passes[0][1]
